@@ -10,12 +10,16 @@ RULE = ("case = (generated program with Print / Assert / Assume statements in 1.
         "flow, occasionally inside EnableInserter; format specs drawn from the accepted grammar [[fill]align][sign][#][0][width][_]"
         "[type b o d x X c s | none] x signed/unsigned shapes x values; scheduler order; explicit step list of input writes, active "
         "and inactive clock edges, coincident edges of two printing domains, sync/async reset pulses with and without a clock "
-        "edge). Non-trivial = at least one message was printed or an assertion fired, and a fault kind fired; distinct = distinct "
+        "edge; in a fifth of the cases also a side episode: one sync Print of Format.Enum over a 1..3-bit input with variant names drawn "
+        "from a pool that includes non-ASCII strings, given as a dict or an enum class, stepped through writes and both clock edges"
+        "). Non-trivial = at least one message was printed or an assertion fired, and a fault kind fired; distinct = distinct "
         "SHA-256 of the per-step output trace.")
 ASSUMPTIONS = [
     "Expected text = Python str.format of the same spec on the reference's pre-edge value in its own shape; per step the captured "
     "output must be a concatenation, in some order of the (module, domain) processes, of each process's messages in program order.",
     "`c` values are 7-bit code points; `s` values are ASCII bytes without NUL except NUL padding above the text.",
+    "Format.Enum prints the name of the variant selected by the pre-edge value exactly as Python prints that str (names are data and "
+    "may lie outside ASCII), and `[unknown]` for a value without a variant.",
     "A small fixed list of specifications outside the grammar must be rejected when the Format is built.",
     "If several assertions fail at the same edge, any one that is first in its own (module, domain) process may be reported.",
     "Print statements also take several arguments (a Format, plain strings incl. the empty one, bare values) with sep / end as "
@@ -29,8 +33,10 @@ COMPONENTS = {"real": ["amaranth.hdl._ast.Format / Print / Assert / Assume (vali
               "stub": ["PermSet scheduler seam", "clock/reset driver", "reference interpreter + str.format"]}
 EXPECTED_PROBES = ("sched", "coincide", "inactive", "srst", "arst", "restart", "restart_after_assertion", "printed", "assert_fired",
                    "silent_steps", "two_processes_printed", "continued_after_assertion",
-                   "spec_c", "spec_s", "signed_value_printed", "invalid_specs_rejected")
+                   "spec_c", "spec_s", "signed_value_printed", "invalid_specs_rejected", "enum_printed", "enum_non_ascii_printed",
+                   "enum_unknown_printed")
 OPTS = {"max_domains": 2, "max_modules": 3, "wrappers": False, "prints": True, "asserts": True, "fsm": True, "max_stmts": 5, "depth": 1}
+ENUM_NAMES = ["A", "idle", "BUSY_1", "x y", "\u03a9", "na\u00efve", "\u65e5\u672c", "\u00b5s", "\u00e9", "\u00df", "Z\u00fcrich", "\U0001f600k"]
 INVALID_SPECS = ["^5", "<^3", ",", "5,d", "n", ".3", "5.2d", "f", "e", "%", "q", "+s", "#c", "05s", "=4c", "_s", "00d", "+-d"]
 
 
@@ -55,8 +61,17 @@ def gen_case(seed, tier):
         m["wrap"].append(["enable", cfg.choice(prog["domains"])["name"], len(prog["signals"]) - 1])
     n = cfg.randint(8, 50) if tier == "quick" else cfg.randint(8, 160)
     steps = progdrv.gen_steps(prog, wl, fl, n, p_reset=fl.choice([0.0, 0.1, 0.2]), p_coincide=fl.choice([0.0, 0.4, 0.8]))
-    return {"prog": prog, "sched": {"mode": sc.choice(["seeded", "seeded", "reverse", "insertion"]), "seed": sc.randrange(1 << 32)},
+    case = {"prog": prog, "sched": {"mode": sc.choice(["seeded", "seeded", "reverse", "insertion"]), "seed": sc.randrange(1 << 32)},
             "steps": steps, "restart": fl.random() < 0.5, "continue_after_assert": fl.random() < 0.5}
+    en = stream(seed, "enum")
+    if en.random() < 0.2:
+        # a side episode: an enumeration printed through Format.Enum (names are data: any str, also outside ASCII)
+        w = en.randint(1, 3)
+        vals = en.sample(range(1 << w), en.randint(1, min(4, 1 << w)))
+        case["enum"] = {"width": w, "edge": en.choice(["pos", "neg"]), "as_class": en.random() < 0.3,
+                        "variants": [[v, en.choice(ENUM_NAMES) + (str(k) if en.random() < 0.3 else "")] for k, v in enumerate(vals)],
+                        "steps": [["set", en.randrange(1 << w)] if en.random() < 0.4 else ["clk"] for _ in range(en.randint(4, 24))]}
+    return case
 
 
 def _concat_match(text, blocks):
@@ -74,6 +89,60 @@ def _concat_match(text, blocks):
 
 class Stop(Exception):
     pass
+
+
+def enum_episode(case, stats, P, dig):
+    """Format.Enum in a sync Print: at every active edge exactly the name of the variant that the (pre-edge) value selects, or
+    "[unknown]", as Python's str.format prints that str; nothing at any other instant."""
+    import enum as pyenum
+    from amaranth.hdl import Module, Signal, Print, Format
+    from dsim.simdrv import ManualRun, DomainSpec
+    spec = case["enum"]
+    names = {}
+    for v, n in spec["variants"]:
+        names.setdefault(v, n)
+    if spec["as_class"] and len(set(names.values())) == len(names):
+        variants = pyenum.Enum("Variants", {n: v for v, n in names.items()})
+    else:
+        variants = dict(names)
+    m = Module()
+    u = Signal(spec["width"], name="u")
+    m.d.sync += Print(Format("<{}>", Format.Enum(u, variants)))
+    run = ManualRun(m, [DomainSpec("sync", edge=spec["edge"])], sched_mode=case["sched"]["mode"], sched_seed=case["sched"]["seed"],
+                    capture_stdout=True)
+
+    def body(drv):
+        cur = 0
+        out = drv.take_stdout()
+        if out:
+            raise Violation("printed_without_active_edge", -1, {"text": out[:200], "episode": "enum"})
+        for i, st in enumerate(spec["steps"]):
+            drv.begin_step(i)
+            if st[0] == "set":
+                cur = st[1]
+                drv.set(u, cur)
+                expected = ""
+            else:
+                lvl = 1 - drv.level("sync.clk")
+                drv.drive({"sync.clk": lvl})
+                active = (lvl == 1) == (spec["edge"] == "pos")
+                expected = "<{}>\n".format(names.get(cur, "[unknown]")) if active else ""
+                stats["edges"] += 1
+                if not active:
+                    stats["faults"]["inactive"] += 1
+            stats["steps"] += 1
+            out = drv.take_stdout()
+            if out != expected:
+                raise Violation("print_text" if expected else "printed_without_active_edge", i,
+                                {"episode": "enum", "got": out[:200], "expected": expected, "value": cur, "variants": spec["variants"]})
+            if expected:
+                P["enum_printed"] = P.get("enum_printed", 0) + 1
+                if not expected.isascii():
+                    P["enum_non_ascii_printed"] = P.get("enum_non_ascii_printed", 0) + 1
+                if cur not in names:
+                    P["enum_unknown_printed"] = P.get("enum_unknown_printed", 0) + 1
+            dig.add(("enum", out), state=False)
+    run.run(body)
 
 
 def run_case(case):
@@ -271,6 +340,8 @@ def run_case(case):
                 raise Violation("assert_raised_unexpectedly", -1, {"message": str(e)[:300], "when": "after Simulator.reset()"})
             if pr.dig.hexdigest() != first:
                 raise Violation("trace_differs_after_reset", -1, {})
+        if case.get("enum"):
+            enum_episode(case, stats, P, pr.dig)
 
     def count_specs(prog):
         import json
@@ -297,4 +368,24 @@ def signature(case, violation):
 
 
 def simplify(case):
+    if case.get("enum"):
+        import copy
+        c = copy.deepcopy(case)
+        c["prog"]["top"]["stmts"] = []
+        c["prog"]["top"]["subs"] = []
+        c["steps"] = []
+        yield c
+        en = case["enum"]
+        for k in range(len(en["steps"])):
+            c = copy.deepcopy(case)
+            del c["enum"]["steps"][k]
+            yield c
+        for k in range(len(en["variants"])):
+            if len(en["variants"]) > 1:
+                c = copy.deepcopy(case)
+                del c["enum"]["variants"][k]
+                yield c
+        c = copy.deepcopy(case)
+        del c["enum"]
+        yield c
     yield from progdrv.simplify_prog(case)
